@@ -14,6 +14,7 @@ import (
 	"perun.network/go-perun/channel/persistence/keyvalue"
 	"perun.network/go-perun/client"
 	"perun.network/go-perun/wallet"
+	"perun.network/go-perun/watcher"
 	"perun.network/go-perun/watcher/local"
 	"perun.network/go-perun/wire"
 
@@ -58,12 +59,13 @@ type Recorder struct {
 	n  *Node
 	mu sync.Mutex
 
-	Created  []channel.ID
-	Enables  []EnabledRec
-	SigAdds  []SigRec
-	Removed  []channel.ID
-	Phases   []PhaseRec
-	OnEnable func(r EnabledRec)
+	Created   []channel.ID
+	Enables   []EnabledRec
+	SigAdds   []SigRec
+	Removed   []channel.ID
+	Phases    []PhaseRec
+	Published []PubRec
+	OnEnable  func(r EnabledRec)
 }
 
 // PhaseRec is one PhaseChanged observation.
@@ -155,6 +157,65 @@ func (r *Recorder) Enabled(ctx context.Context, s channel.Source) error {
 	return r.PersistRestorer.Enabled(ctx, s)
 }
 
+// PubRec records that the client handed a transaction to its watcher (At is
+// the instant Publish returned).
+type PubRec struct {
+	At      time.Duration
+	Ch      channel.ID
+	Version uint64
+	Err     error
+}
+
+// recWatcher passes everything through to the real watcher and records the
+// states the client publishes to it.
+type recWatcher struct {
+	watcher.Watcher
+	n *Node
+}
+
+type recPub struct {
+	watcher.StatesPub
+	n *Node
+}
+
+func (w *recWatcher) StartWatchingLedgerChannel(ctx context.Context, s channel.SignedState) (watcher.StatesPub, watcher.AdjudicatorSub, error) {
+	p, a, err := w.Watcher.StartWatchingLedgerChannel(ctx, s)
+	if err != nil {
+		return p, a, err
+	}
+	return &recPub{p, w.n}, a, nil
+}
+
+func (w *recWatcher) StartWatchingSubChannel(ctx context.Context, parent channel.ID, s channel.SignedState) (watcher.StatesPub, watcher.AdjudicatorSub, error) {
+	p, a, err := w.Watcher.StartWatchingSubChannel(ctx, parent, s)
+	if err != nil {
+		return p, a, err
+	}
+	return &recPub{p, w.n}, a, nil
+}
+
+func (p *recPub) Publish(ctx context.Context, tx channel.Transaction) error {
+	err := p.StatesPub.Publish(ctx, tx)
+	r := p.n.Rec
+	r.mu.Lock()
+	r.Published = append(r.Published, PubRec{At: p.n.W.S.Now(), Ch: tx.ID, Version: tx.Version, Err: err})
+	r.mu.Unlock()
+	return err
+}
+
+// PublishedAt returns the instant at which version v of channel id was first
+// handed to the watcher.
+func (r *Recorder) PublishedAt(id channel.ID, v uint64) (time.Duration, bool) {
+	r.mu.Lock()
+	defer r.mu.Unlock()
+	for _, p := range r.Published {
+		if p.Ch == id && p.Version == v && p.Err == nil {
+			return p.At, true
+		}
+	}
+	return 0, false
+}
+
 // EnabledOf returns the Enabled stream of one channel.
 func (r *Recorder) EnabledOf(id channel.ID) []EnabledRec {
 	r.mu.Lock()
@@ -201,8 +262,8 @@ type Node struct {
 	// NextAccNonce, if set, keys the nonce share of the next accepted proposal.
 	NextAccNonce string
 	watchWG      sync.WaitGroup
-	handleDone chan struct{}
-	CtxTimeout time.Duration
+	handleDone   chan struct{}
+	CtxTimeout   time.Duration
 }
 
 // AcceptResult is the outcome of ProposalResponder.Accept.
@@ -250,7 +311,7 @@ func (w *World) addNode(name string, accIdx int, pr persistence.PersistRestorer,
 		panic(err)
 	}
 	n.Watcher = wt
-	c, err := client.New(n.Wire, n.Port, n.Party, n.Party, map[wallet.BackendID]wallet.Wallet{channel.TestBackendID: n.Wallet}, wt)
+	c, err := client.New(n.Wire, n.Port, n.Party, n.Party, map[wallet.BackendID]wallet.Wallet{channel.TestBackendID: n.Wallet}, &recWatcher{Watcher: wt, n: n})
 	if err != nil {
 		panic(err)
 	}
@@ -475,4 +536,6 @@ func nonceReader(s *Sim, key string) *nonceRd { return &nonceRd{s: s, key: key} 
 // Bal is shorthand.
 func Bal(v int64) *big.Int { return big.NewInt(v) }
 
-func deriveByte(seed uint64, key string, n int) uint64 { return kernel.Derive(seed, "nonce", key, n) & 0xff }
+func deriveByte(seed uint64, key string, n int) uint64 {
+	return kernel.Derive(seed, "nonce", key, n) & 0xff
+}
